@@ -550,3 +550,107 @@ theorem C08_permitted_service_exchange_succeeds_warm (st : St) (a b : Nat) (ndA 
   simp only [h0, nodeA st rfl, hA.on, Option.any_some, Bool.not_true, Bool.false_eq_true, if_false, s1]
   simp only [node?_modNode, if_true, node?_emit, nodeA st6 n6, Option.map_some]
 
+/-! ### non-vacuity: host A — switch — firewall (internal → external) — router — host B, fully warm (the state after one
+round trip: every router also holds the REMOTE hosts' addresses, learned from the frames that passed) -/
+
+def lvA : Ip := 0xC0A80102#32   -- 192.168.1.2
+def lvB : Ip := 0xC0A80202#32   -- 192.168.2.2
+def everyList : List (Nat × Nat) := (List.range 6).flatMap (fun l => (List.range 3).map (fun c => (l, c)))
+
+def lvHostA : Node :=
+  { kind := .host, gateway := some 0xC0A80101#32,
+    ifaces := [{ mac := 1, ip := lvA, plen := 24, enabled := true, peer := some (1, 0) }],
+    arp := [{ ip := 0xC0A80101#32, mac := 21, ifc := 0 }, { ip := lvB, mac := 21, ifc := 0 }] }
+def lvSw : Node :=
+  { kind := .switch,
+    ifaces := [{ mac := 10, ip := 0#32, plen := 0, enabled := true, peer := some (0, 0) },
+               { mac := 11, ip := 0#32, plen := 0, enabled := true, peer := some (2, 1) }],
+    macTable := [(1, 0), (21, 1)] }
+def lvFw : Node :=
+  { kind := .router, fw := some everyList,
+    ifaces := [{ mac := 20, ip := 0x0A000001#32, plen := 30, enabled := true, peer := some (3, 0) },
+               { mac := 21, ip := 0xC0A80101#32, plen := 24, enabled := true, peer := some (1, 1) },
+               { mac := 22, ip := 0x7F000001#32, plen := 8, enabled := false }],
+    routes := { routes := [{ addr := 0xC0A80200#32, mask := 0xFFFFFF00#32, nextHop := 0x0A000002#32, metric := 0 }] },
+    arp := [{ ip := lvA, mac := 1, ifc := 1 }, { ip := 0x0A000002#32, mac := 30, ifc := 0 }, { ip := lvB, mac := 30, ifc := 0 }] }
+def lvR : Node :=
+  { kind := .router, flag := true,
+    ifaces := [{ mac := 30, ip := 0x0A000002#32, plen := 30, enabled := true, peer := some (2, 0) },
+               { mac := 31, ip := 0xC0A80201#32, plen := 24, enabled := true, peer := some (4, 0) }],
+    routes := { routes := [], default := some 0x0A000001#32 },
+    arp := [{ ip := 0x0A000001#32, mac := 20, ifc := 0 }, { ip := lvA, mac := 20, ifc := 0 }, { ip := lvB, mac := 40, ifc := 1 }] }
+def lvHostB : Node :=
+  { kind := .host, gateway := some 0xC0A80201#32, flag := true,
+    ifaces := [{ mac := 40, ip := lvB, plen := 24, enabled := true, peer := some (3, 1) }],
+    arp := [{ ip := 0xC0A80201#32, mac := 31, ifc := 0 }, { ip := lvA, mac := 31, ifc := 0 }] }
+def lvSt : St := { nodes := [lvHostA, lvSw, lvFw, lvR, lvHostB] }
+
+/-- forward path A → B: switch (learned), firewall (internal → external outbound, destination remote but cached, static
+route), router (destination on-link and cached). -/
+theorem lvPathAB (pl : Pl) (h1 : transitOk lvFw 1 pl lvB = true) (h2 : transitOk lvR 0 pl lvB = true) :
+    Path lvSt.nodes pl lvA lvB 1 0 1 21 4 0 31 40 11 5 := by
+  refine Path.switch (m := 2) (j := 1) (c := 8) (h := 4) ⟨⟨lvSw, lvSw.ifaces[0], 1, lvSw.ifaces[1], lvFw.ifaces[1], by decide, by decide, by decide, by decide, by decide,
+    by decide, by decide, by decide, by decide, by decide⟩⟩ ?_
+  refine Path.router (m := 3) (j := 0) (c := 4) (h := 2) (os := 20) (od := 30) ⟨⟨lvFw, lvFw.ifaces[1], { ip := lvA, mac := 1, ifc := 1 },
+    { ip := 0x0A000002#32, mac := 30, ifc := 0 }, lvFw.ifaces[0], lvR.ifaces[0], by decide, by decide, h1, by decide, by decide,
+    by decide, by decide, ?_, by decide, by decide, by decide, by decide, by decide, by decide, by decide⟩⟩ (by decide) ?_
+  · exact Or.inr (Or.inr ⟨{ ip := lvB, mac := 30, ifc := 0 }, lvFw.ifaces[0], by decide, by decide, by decide, by decide, by decide,
+      by decide, by decide, by decide⟩)
+  refine Path.router (m := 4) (j := 0) (c := 0) (h := 0) (os := 31) (od := 40) ⟨⟨lvR, lvR.ifaces[0], { ip := lvA, mac := 20, ifc := 0 },
+    { ip := lvB, mac := 40, ifc := 1 }, lvR.ifaces[1], lvHostB.ifaces[0], by decide, by decide, h2, by decide, by decide,
+    by decide, by decide, Or.inr (Or.inl ⟨by decide, by decide⟩), by decide, by decide, by decide, by decide, by decide, by decide,
+    by decide⟩⟩ (by decide) Path.arrive
+
+/-- backward path B → A: router (destination remote but cached, DEFAULT route), firewall (external inbound → internal
+inbound, destination on-link), switch. -/
+theorem lvPathBA (pl : Pl) (h1 : transitOk lvR 1 pl lvA = true) (h2 : transitOk lvFw 0 pl lvA = true) :
+    Path lvSt.nodes pl lvB lvA 3 1 40 31 0 0 21 1 11 5 := by
+  refine Path.router (m := 2) (j := 0) (c := 7) (h := 3) (os := 30) (od := 20) ⟨⟨lvR, lvR.ifaces[1], { ip := lvB, mac := 40, ifc := 1 },
+    { ip := 0x0A000001#32, mac := 20, ifc := 0 }, lvR.ifaces[0], lvFw.ifaces[0], by decide, by decide, h1, by decide, by decide,
+    by decide, by decide, ?_, by decide, by decide, by decide, by decide, by decide, by decide, by decide⟩⟩ (by decide) ?_
+  · exact Or.inr (Or.inr ⟨{ ip := lvA, mac := 20, ifc := 0 }, lvR.ifaces[0], by decide, by decide, by decide, by decide, by decide,
+      by decide, by decide, by decide⟩)
+  refine Path.router (m := 1) (j := 1) (c := 3) (h := 1) (os := 21) (od := 1) ⟨⟨lvFw, lvFw.ifaces[0], { ip := lvB, mac := 30, ifc := 0 },
+    { ip := lvA, mac := 1, ifc := 1 }, lvFw.ifaces[1], lvSw.ifaces[1], by decide, by decide, h2, by decide, by decide,
+    by decide, by decide, Or.inr (Or.inl ⟨by decide, by decide⟩), by decide, by decide, by decide, by decide, by decide, by decide,
+    by decide⟩⟩ (by decide) ?_
+  exact Path.switch (m := 0) (j := 0) (c := 0) (h := 0) ⟨⟨lvSw, lvSw.ifaces[1], 0, lvSw.ifaces[0], lvHostA.ifaces[0], by decide, by decide, by decide, by decide, by decide,
+    by decide, by decide, by decide, by decide, by decide⟩⟩ Path.arrive
+
+theorem lvWarmA : WarmHost lvSt.nodes 0 lvHostA lvHostA.ifaces[0] lvB { ip := 0xC0A80101#32, mac := 21, ifc := 0 } 1 0 :=
+  ⟨by decide, by decide, by decide, by decide, by decide,
+    Or.inr ⟨by decide, 0xC0A80101#32, by decide, by decide, by decide⟩, by decide, by decide,
+    ⟨lvSw.ifaces[0], by decide, by decide⟩, ⟨{ ip := lvB, mac := 21, ifc := 0 }, by decide⟩, by decide, by decide⟩
+
+theorem lvWarmB : WarmHost lvSt.nodes 4 lvHostB lvHostB.ifaces[0] lvA { ip := 0xC0A80201#32, mac := 31, ifc := 0 } 3 1 :=
+  ⟨by decide, by decide, by decide, by decide, by decide,
+    Or.inr ⟨by decide, 0xC0A80201#32, by decide, by decide, by decide⟩, by decide, by decide,
+    ⟨lvR.ifaces[1], by decide, by decide⟩, ⟨{ ip := lvA, mac := 31, ifc := 0 }, by decide⟩, by decide, by decide⟩
+
+/-- the hypotheses of the ICMP liveness theorem hold for this network, and the theorem gives the result … -/
+example : (ping (0 + 11 + 11 + 8) lvSt 0 lvB 1).2 = true :=
+  C08_permitted_exchange_succeeds_warm lvSt 0 4 lvHostA lvHostB lvHostA.ifaces[0] lvHostB.ifaces[0]
+    { ip := 0xC0A80101#32, mac := 21, ifc := 0 } { ip := 0xC0A80201#32, mac := 31, ifc := 0 } 1 0 3 1 21 31 11 5 11 5 0
+    lvWarmA lvWarmB (by decide) (lvPathAB _ (by decide) (by decide)) (lvPathBA _ (by decide) (by decide)) (by decide) (by decide)
+
+/-- … and so do those of the service theorem (the router carries the permit rule, every firewall list permits). -/
+example : (requestService (0 + 11 + 11 + 8) lvSt 0 lvB).2 = true :=
+  C08_permitted_service_exchange_succeeds_warm lvSt 0 4 lvHostA lvHostB lvHostA.ifaces[0] lvHostB.ifaces[0]
+    { ip := 0xC0A80101#32, mac := 21, ifc := 0 } { ip := 0xC0A80201#32, mac := 31, ifc := 0 } 1 0 3 1 21 31 11 5 11 5 0
+    lvWarmA lvWarmB (by decide) (by decide) (by decide) (lvPathAB _ (by decide) (by decide)) (lvPathBA _ (by decide) (by decide))
+    (by decide) (by decide)
+
+/-- "every device on the path permits" is a real precondition: without the router's permit rule `transitOk` fails … -/
+example : transitOk { lvR with flag := false } 0 .dataReq lvB = false := by decide
+/-- … and so it does when the firewall's external-outbound list does not permit ICMP. -/
+example : transitOk { lvFw with fw := some (everyList.filter (· != (1, 1))) } 1 (.echoReq 0) lvB = false := by decide
+
+/-! ### the COLD path, by evaluation only (not a theorem): the same network with empty caches and tables — the ARP
+exchanges nested inside the first ping (A ↔ firewall through the switch's flood, firewall ↔ router, router ↔ B) complete and the
+ping, then the service exchange, succeed; the general cold case is validated on the implementation by R-net. -/
+def lvCold : St := { nodes := lvSt.nodes.map (fun nd => { nd with arp := [], macTable := [] }) }
+example : (ping 200 lvCold 0 lvB 1).2 = true := by decide +kernel
+example : (requestService 200 lvCold 0 lvB).2 = true := by decide +kernel
+example : (ping 200 lvCold 0 lvB 1).1.oof = false := by decide +kernel
+
+end Primaite.Forward
